@@ -41,6 +41,9 @@ CHECKS = {
  "C14": dict(technique="model-based property testing (proptest) of the real scanner on materialised trees with a synthetic virtualenv: import-closure / plugin / classification model vs the scanned index",
              text="Generated-input search over import graphs and virtualenv layouts; oracle is the reference model's visible set per file plus classification by where the source lives. Exploration only.",
              note="trusted: reference model (model.rs); the synthetic venv layouts mirror pip's dist-info / egg-info / editable conventions as documented in scanner.rs", ref="DESIGN.md 4 C14", engine="vengine"),
+ "C20": dict(technique="differential property testing (proptest) of the real CLI binary against library reference sets on the same materialised tree; metamorphic rerun / text-vs-JSON / filter-partition relations",
+             text="Generated-input search over workspaces; oracle: unused list == {project, non-autouse, empty reference set}, exit status, text == JSON, list counts == reference set sizes, filters partition, reruns byte-identical across worker counts. Exploration only.",
+             note="trusted: find_references_for_definition as the server-side reference (validated against goto by C04 and against the model by C01/C02)", ref="DESIGN.md 4 C20", engine="vengine"),
 }
 PENDING = {
 }
